@@ -42,6 +42,7 @@ func checkC18(r *core.Result) {
 		return
 	}
 	root := prog.Pkg("")
+	r.Counts["type switches read as assertion chains"] = desugarTypeSwitches(root)
 	info := root.TypesInfo
 	funcs := funcsOfFiles(root, "json.go")
 	regs, _ := findRegions(root, funcs)
